@@ -79,6 +79,51 @@ def dataOK (p : Precalc) : Bool :=
   periodsWF p.periods && p.tail.isNone && (p.tailStart == AMAX) &&
   p.periods.all (fun z => decide (MINI ≤ z.s → z.e ≤ MAXI → z.e - z.s ≥ 2 * (64800 * NPS)))
 
+/-! ### decidable per-year facts about a recurring tail (hypotheses of `C04.altmap_partition`) -/
+
+def allYears (lo hi : Int) (p : Int → Bool) : Bool :=
+  (List.range (hi - lo + 1).toNat).all (fun i => p (lo + (i : Int)))
+
+def occOf (yo : YearOffset) (y : Int) : Int :=
+  match yo.occurrence y with | .ok v => v | .error _ => 0
+
+def ysNsM (y : Int) : Int := Calendar.Greg.start y * NPD
+
+/-- the rule's occurrence exists and lies inside its own local year, for every year of `lo … hi` -/
+def ruleOK (yo : YearOffset) (lo hi : Int) : Bool :=
+  decide (-9998 < lo) && decide (hi + 3 ≤ 9999) &&
+  allYears lo hi (fun y =>
+    match yo.occurrence y with
+    | .ok v => decide (ysNsM y ≤ v) && decide (v < ysNsM (y + 1))
+    | .error _ => false)
+
+def roOf (yo : YearOffset) (std ps : Int) : Int :=
+  match yo.ruleOffset std ps with | .ok v => v | .error _ => 0
+
+/-- transition instants of the two rules -/
+def tdOf (m : AltMap) (y : Int) : Int := occOf m.dstRec.yo y - roOf m.dstRec.yo m.std 0 * NPS
+def tsOf (m : AltMap) (y : Int) : Int := occOf m.stdRec.yo y - roOf m.stdRec.yo m.std m.dstRec.savings * NPS
+
+def tailBase (m : AltMap) (lo hi : Int) : Bool :=
+  decide (m.dstRec.fromYear = INT_MIN) && decide (m.dstRec.toYear = INT_MAX) &&
+  decide (m.stdRec.fromYear = INT_MIN) && decide (m.stdRec.toYear = INT_MAX) &&
+  decide (m.stdRec.savings = 0) &&
+  decide (-64800 ≤ m.std) && decide (m.std ≤ 64800) &&
+  decide (-64800 ≤ m.std + m.dstRec.savings) && decide (m.std + m.dstRec.savings ≤ 64800) &&
+  (match m.dstRec.yo.ruleOffset m.std 0 with | .ok v => decide (-64800 ≤ v) && decide (v ≤ 64800) | .error _ => false) &&
+  (match m.stdRec.yo.ruleOffset m.std m.dstRec.savings with | .ok v => decide (-64800 ≤ v) && decide (v ≤ 64800) | .error _ => false) &&
+  ruleOK m.dstRec.yo lo hi && ruleOK m.stdRec.yo lo hi
+
+def altD (m : AltMap) (lo hi : Int) : Bool :=
+  allYears lo hi (fun y => decide (tdOf m y < tsOf m y) && (decide (y = hi) || decide (tsOf m y < tdOf m (y + 1))))
+
+def altS (m : AltMap) (lo hi : Int) : Bool :=
+  allYears lo hi (fun y => decide (tsOf m y < tdOf m y) && (decide (y = hi) || decide (tdOf m y < tsOf m (y + 1))))
+
+/-- 1 = daylight rule first in each year, 2 = standard rule first, 0 = the check fails -/
+def tailOK (m : AltMap) (lo hi : Int) : Nat :=
+  if tailBase m lo hi then (if altD m lo hi then 1 else if altS m lo hi then 2 else 0) else 0
+
 def maximal (ps : Array ZI) : Bool :=
   (List.range (ps.size - 1)).all (fun i =>
     match ps[i]?, ps[i+1]? with
@@ -125,6 +170,12 @@ def step (reg : Registry) (toks : List String) : Option (Registry × String) :=
     | .fixed z => some (reg, s!"fixed {z.wall}")
     | .precalc p =>
       some (reg, s!"{showBool p.validate} {showBool (periodsWF p.periods)} {showBool (maximal p.periods)} {minLen p.periods} {p.minOffset} {p.maxOffset} {showBool (dataOK p)}")
+  | ["tail.ok", zid, lo, hi] => do
+    let d ← reg.get? zid
+    let lo ← parseInt? lo; let hi ← parseInt? hi
+    match d with
+    | .precalc ⟨_, some m⟩ => some (reg, toString (tailOK m lo hi))
+    | _ => some (reg, "none")
   | ["zone.safeplus", t, off] => do
     let t ← parseInt? t; let off ← parseInt? off
     some (reg, s!"{safePlus t (off * NPS)} {safeMinus t (off * NPS)}")
